@@ -6,6 +6,7 @@ import (
 	"bufio"
 	"encoding/json"
 	"fmt"
+	"io"
 	"math/rand"
 	"os"
 	"path/filepath"
@@ -141,4 +142,40 @@ func SortedKeysU(m map[uint64]struct{}) []uint64 {
 func Die(format string, a ...interface{}) {
 	fmt.Fprintf(os.Stderr, format+"\n", a...)
 	os.Exit(2)
+}
+
+// ShortReader hands out data in short, irregular reads (1..4096 bytes, sometimes a single byte): what a snapshot
+// image looks like when it arrives through a file or network stream rather than a bytes.Buffer. io.Reader allows
+// every Read to return fewer bytes than asked for; code that ignores the returned count only works on in-memory readers.
+type ShortReader struct {
+	data []byte
+	pos  int
+	st   uint64
+}
+
+func NewShortReader(data []byte) *ShortReader {
+	return &ShortReader{data: data, st: uint64(len(data))*2654435761 + 12345}
+}
+
+func (s *ShortReader) Read(p []byte) (int, error) {
+	if s.pos >= len(s.data) {
+		return 0, io.EOF
+	}
+	if len(p) == 0 {
+		return 0, nil
+	}
+	s.st = s.st*6364136223846793005 + 1442695040888963407
+	n := int((s.st>>33)%4096) + 1
+	if (s.st>>20)%16 == 0 {
+		n = 1
+	}
+	if n > len(p) {
+		n = len(p)
+	}
+	if n > len(s.data)-s.pos {
+		n = len(s.data) - s.pos
+	}
+	copy(p, s.data[s.pos:s.pos+n])
+	s.pos += n
+	return n, nil
 }
